@@ -4,8 +4,9 @@ events.
 
 Script ids: listeners lid 1.., connectors cid 1..99 (a successful connect
 registers the client stream under the cid), accepted streams sid 100.. .
-Links between hosts are either held (SYNs and segments stay on the link until
-the controller matures them through Sim::links) or healthy with zero latency.
+Links have zero latency; every fault call (hold, release, partition, repair and
+the one-way forms, from the Sim handle or from host code) is one model event,
+`deliver` through Sim::links is `Mature`, the start of Sim::step is `Tick`.
 """
 import json
 
@@ -47,7 +48,6 @@ def to_model(case, obs):
     tick = cfg.get("tick_ms", 1)
     eph = cfg.get("eph") or [49152, 65535]
     evs, probes, problems = [], [], []
-    held = set()
     cidx = {}            # (script cid) -> model connection index
     tmo = {}             # script cid -> (step issued, timeout ms)
     side = {}            # (host, stream id) -> "A" | "B"
@@ -55,42 +55,39 @@ def to_model(case, obs):
     bg_done = {(b[1], b[2]): b[0] for b in obs.get("bg", [])}      # (host, sid) -> step it completed
     bg_pending = {h: [] for h in range(n)}                          # issue order: (lid, sid)
 
-    def healthy_matures():
-        for (a, b) in pairs:
-            if (a, b) not in held:
-                evs.append("Mature %d %d %s" % (a, b, coq_list(BIG)))
+    def link_event(nm, a, b):
+        """one fault call (Sim handle or host code) -> the model's link event"""
+        lo, hi = min(a, b), max(a, b)
+        if nm == "hold":
+            return "Hold %d %d" % (lo, hi)
+        if nm == "release":
+            return "Release %d %d" % (lo, hi)
+        if nm == "partition":
+            return "Partition %d %d" % (lo, hi)
+        if nm == "repair":
+            return "Repair %d %d" % (lo, hi)
+        if nm == "partition_oneway":
+            return "PartitionOne %d %d" % (a, b)
+        if nm == "repair_oneway":
+            return "RepairOne %d %d" % (a, b)
+        return None
 
     for k, st in enumerate(case["steps"]):
-        ks = {}
         for act in st["ctl"]:
             nm = act[0]
             a, b = act[1], act[2]
-            key = (min(a, b), max(a, b))
-            if nm == "hold":
-                held.add(key)
-                ks.pop(key, None)          # Link::hold re-marks everything in `sent` as held
-                evs.append("Repair %d %d" % key)
-            elif nm == "release":
-                held.discard(key)
-                evs.append("Repair %d %d" % key)
-                evs.append("Mature %d %d %s" % (key[0], key[1], coq_list(BIG)))
-            elif nm == "partition":
-                ks.pop(key, None)
-                evs.append("Partition %d %d" % key)
-            elif nm == "partition_oneway":
-                if ks.get(key):
-                    problems.append("deliver before partition_oneway in one controller phase is not supported")
-                evs.append("PartitionOne %d %d" % (a, b))
-            elif nm == "deliver":
-                ks.setdefault(key, []).append(act[3])
-            else:
+            if nm == "deliver":
+                evs.append("Mature %d %d [%d]" % (min(a, b), max(a, b), act[3]))
+                continue
+            e = link_event(nm, a, b)
+            if e is None:
                 problems.append("unsupported ctl action %s" % nm)
-        for key, v in ks.items():
-            evs.append("Mature %d %d %s" % (key[0], key[1], coq_list(v)))
+            else:
+                evs.append(e)
+        evs.append("Tick")               # Sim::step starts with Topology::tick_by
         for h in range(n):
             probes.append((len(evs), "drain", (k, h)))
             evs.append("Drain %d" % h)
-            healthy_matures()
             for i, cmd in enumerate(st.get("hosts", {}).get(str(h), [])):
                 nm = cmd[0]
                 key = (k, h, i)
@@ -168,10 +165,16 @@ def to_model(case, obs):
                 elif nm == "count_on":
                     probes.append((len(evs), "res", key))
                     evs.append("Count %d" % cmd[1])
+                elif nm == "link":
+                    e = link_event(cmd[1], cmd[2], cmd[3])
+                    if e is None:
+                        problems.append("unsupported link call %s" % cmd[1])
+                        continue
+                    probes.append((len(evs), "res", key))
+                    evs.append(e)
                 else:
                     problems.append("unsupported command %s" % nm)
                     continue
-                healthy_matures()
             # which parked task the Notify wakes first is tokio's business (tasks that were woken in
             # vain re-queue at the back): follow the implementation for the order, check the outcome
             now = [b[2] for b in obs.get("bg", []) if b[0] == k and b[1] == h]
@@ -183,7 +186,6 @@ def to_model(case, obs):
                     continue
                 probes.append((len(evs), "bg", (k, h, sid)))
                 evs.append("Accept %d %d %d" % (h, lid, sid))
-                healthy_matures()
                 if kc is None or kc > k:
                     still.append((lid, sid))
             bg_pending[h] = [x for x in bg_pending[h] if x in still]
@@ -341,7 +343,7 @@ class Script:
         self.step(k)["hosts"].setdefault(str(h), []).append(cmd)
 
 
-CTL_ORDER = {"partition": 0, "partition_oneway": 0, "hold": 1, "release": 1, "deliver": 2}
+CTL_ORDER = {"partition": 0, "partition_oneway": 0, "repair": 0, "repair_oneway": 0, "hold": 1, "release": 1, "deliver": 2}
 
 
 def normalise(case):
@@ -880,6 +882,161 @@ def gen_residue(rng):
     sc.cmd(t, 0, ["count"])
     sc.cmd(t, 1, ["count"])
     return normalise({"cfg": cfg, "steps": sc.steps, "flavour": "residue"})
+
+
+LINK_SEQS = [
+    ["hold", "repair", "release"],
+    ["hold", "repair", "release"],
+    ["hold", "repair_cs", "release"],
+    ["hold", "repair_sc", "release"],
+    ["hold", "repair_cs", "repair_sc", "release"],
+    ["hold", "repair_sc", "repair_cs", "release"],
+    ["hold", "partition", "repair", "release"],
+    ["hold", "partition_cs", "repair_cs", "release"],
+    ["hold", "partition_sc", "repair", "release"],
+    ["release"],
+    ["repair", "release"],
+    ["hold", "release"],
+    ["hold", "repair", "hold", "release"],
+    ["hold", "repair", "release", "release"],
+    ["hold", "hold", "repair", "repair", "release"],
+    ["hold", "repair", "partition", "repair", "release"],
+    ["hold", "release", "hold", "repair", "release"],
+]
+
+
+def gen_linkcalls(rng):
+    """Fault-call sequences beyond hold/release on the link between connector and listener: hold ->
+    repair -> release, hold -> repair_oneway (either / both directions) -> release, hold -> partition ->
+    repair -> release, release without a hold, ... issued through the Sim handle and from host code
+    (any host).  Connects are started before, between and after the calls (SYNs parked by the hold), in
+    both directions (a second listener on the connector's host); a connection established before the
+    hold has data in flight in both directions while the link is held.  The last call is a release:
+    afterwards the listeners accept more often than there are connectors and every connect is polled."""
+    n = rng.choice([2, 2, 3])
+    cfg = base_cfg(rng, n, cap=rng.choice([5, 6, 8]))
+    sc = Script(cfg)
+    srv = rng.randrange(n)
+    cli = rng.choice([h for h in range(n) if h != srv])
+    third = [h for h in range(n) if h not in (srv, cli)]
+    sc.cmd(0, srv, ["bind", 1, "unspec", 9000])
+    rev = rng.random() < 0.5
+    if rev:
+        sc.cmd(0, cli, ["bind", 2, "unspec", 9001])
+    seq = rng.choice(LINK_SEQS)
+    mode = rng.choice(["ctl", "host", "mixed"])
+
+    def issue(k, call):
+        nm, a, b = call, cli, srv
+        if call.endswith("_cs") or call.endswith("_sc"):
+            nm = call[:-3] + "_oneway"
+            a, b = (cli, srv) if call.endswith("_cs") else (srv, cli)
+        elif rng.random() < 0.5:
+            a, b = b, a
+        via = mode if mode != "mixed" else rng.choice(["ctl", "host"])
+        if via == "ctl":
+            sc.ctl(k, [nm, a, b])
+        else:
+            sc.cmd(k, rng.randrange(n), ["link", nm, a, b])
+        return via
+
+    conns = []                      # (cid, host, listener host)
+    sid = [100]
+    ci = [0]
+
+    def connect(k, h, lh, port):
+        if sum(1 for c in conns if c[2] == lh) >= cfg["cap"] - 1:
+            return None                 # never more pending requests than the listener's backlog holds
+        ci[0] += 1
+        dst = {"name": lh} if rng.random() < 0.25 else {"h": lh}
+        sc.cmd(k, h, ["connect", ci[0], dst, port])
+        conns.append((ci[0], h, lh))
+        return ci[0]
+
+    def activity(k, first):
+        """what the programs do between two calls"""
+        r = rng.random()
+        if first or r < 0.8:
+            connect(k, cli, srv, 9000)
+        if rev and rng.random() < 0.6:
+            connect(k, srv, cli, 9001)
+        if third and rng.random() < 0.4:
+            connect(k, third[0], srv, 9000)
+        if rng.random() < 0.15:
+            connect(k, srv, srv, 9000)
+        if rng.random() < 0.3:
+            sc.cmd(k, srv, ["accept", 1, sid[0]])
+            sid[0] += 1
+        if rng.random() < 0.3 and conns:
+            c = rng.choice(conns)
+            sc.cmd(k, c[1], ["poll", c[0]])
+
+    # an early connection, established before the first call, with data parked by the hold
+    t = 1
+    early = None
+    if rng.random() < 0.6:
+        early = connect(1, cli, srv, 9000)
+        sc.cmd(2, srv, ["accept", 1, sid[0]])
+        esid = sid[0]
+        sid[0] += 1
+        sc.cmd(3, cli, ["poll", early])
+        t = 4
+    if third and rng.random() < 0.5:
+        sc.ctl(t, ["hold", min(third[0], srv), max(third[0], srv)])
+        third_held = True
+    else:
+        third_held = False
+    first = True
+    for i, call in enumerate(seq):
+        via = issue(t, call)
+        last = i == len(seq) - 1
+        if last:
+            break
+        if call == "hold" and early is not None and first:
+            # data of the established connection, parked in both directions
+            sc.cmd(t + 1, cli, ["try_write", early, nonce(early)])
+            sc.cmd(t + 1, srv, ["try_write", esid, [7, 7, early]])
+        if rng.random() < (0.9 if call == "hold" and first else 0.5):
+            activity(t + 1, call == "hold" and first)
+            if call == "hold":
+                first = False
+            t += 2
+        elif via == "ctl" and mode == "ctl" and rng.random() < 0.5:
+            pass                       # the next call in the same controller phase
+        else:
+            t += 1
+    T = t
+    if third_held:
+        sc.ctl(T, ["release", min(third[0], srv), max(third[0], srv)])
+    if rng.random() < 0.4:
+        connect(T + 1, cli, srv, 9000)
+    if rng.random() < 0.3:
+        sc.cmd(T + 1, srv, ["accept_bg", 1, sid[0]])
+        sid[0] += 1
+    to_srv = sum(1 for c in conns if c[2] == srv)
+    to_cli = sum(1 for c in conns if c[2] == cli)
+    for k in (T + 2, T + 3, T + 4):
+        for _ in range(to_srv + 1 if k < T + 4 else 1):
+            sc.cmd(k, srv, ["accept", 1, sid[0]])
+            sid[0] += 1
+        if rev:
+            for _ in range(to_cli + 1 if k < T + 4 else 1):
+                sc.cmd(k, cli, ["accept", 2, sid[0]])
+                sid[0] += 1
+    for (c, h, lh) in conns:
+        sc.cmd(T + 5, h, ["poll", c])
+        if c != early:
+            sc.cmd(T + 5, h, ["try_write", c, nonce(c)])
+        sc.cmd(T + 6, h, ["poll", c])
+    if early is not None:
+        sc.cmd(T + 6, cli, ["read", early, 8])
+    for s_ in range(100, sid[0]):
+        for h in ([srv, cli] if rev else [srv]):
+            sc.cmd(T + 7, h, ["read", s_, 8])
+    for h in range(n):
+        sc.cmd(T + 8, h, ["count"])
+    sc.step(T + 9)
+    return {"cfg": cfg, "steps": sc.steps, "flavour": "linkcalls-%s" % mode}
 
 
 def case_signature(case):
